@@ -201,8 +201,24 @@ class Session:
         self.loop.shutdown_like_asyncio_run()
         self.loop = KLoop(kern=self.kern)
 
+    def newloop_open(self):
+        """The object is used from ANOTHER event loop while the previous one stays open (two loops in one program, or a
+        loop that is simply not closed before the next one is created)."""
+        self.parked = getattr(self, 'parked', [])
+        self.parked.append(self.loop)
+        self.loop = KLoop(kern=self.kern)
+
+    def service_parked(self):
+        """Let the loops that were left open run what is queued on them (transport close callbacks)."""
+        for lp in getattr(self, 'parked', []):
+            if not lp.is_closed():
+                lp.settle(0)
+        if getattr(self, 'parked', None):
+            self.loop.settle(0)
+
     def fp(self, extra=()):
-        return fingerprint(self.loop, (self.p,) + ((self.inv,) if self.inv is not None else ()), extra)
+        return fingerprint(self.loop, (self.p,) + ((self.inv,) if self.inv is not None else ()),
+                           tuple(extra) + ((len(self.parked),) if getattr(self, 'parked', None) else ()))
 
     def open_transports(self):
         return [t for t in self.kern.transports if not t.is_closing()]
